@@ -243,10 +243,34 @@ func (t Tree) ApplyOps(ops []MOp) {
 // PoisonValue marks a document invalid for the fake model plugin (content-based verdict).
 const PoisonValue = "POISON"
 
-// Invalid reports the plugin rule: a candidate containing a live leaf with the poison value is invalid.
-func (t Tree) Invalid() bool {
+// PoisonValueB is what the second synthetic model (Knobs.ModelB) rejects instead: each model accepts the other's token, so
+// a document validated by the wrong target's plugin gets the wrong verdict.
+const PoisonValueB = "VENOM"
+
+// runModelB holds the targets of the current run that use the second model (set by NewSys; a worker process executes one
+// run at a time).
+var runModelB = map[string][2]string{}
+
+// PoisonFor returns the token the model plugin of that target's type and version rejects.
+func PoisonFor(target string) string {
+	if _, ok := runModelB[target]; ok {
+		return PoisonValueB
+	}
+	return PoisonValue
+}
+
+// ModelOf returns (type, version) of a target in the current run.
+func ModelOf(target string) (string, string) {
+	if m, ok := runModelB[target]; ok {
+		return m[0], m[1]
+	}
+	return ModelName, ModelVersion
+}
+
+// InvalidFor reports the plugin rule: a candidate containing a live leaf with the model's poison token is invalid.
+func (t Tree) InvalidFor(token string) bool {
 	for _, l := range t {
-		if strings.Contains(l.V, PoisonValue) {
+		if strings.Contains(l.V, token) {
 			return true
 		}
 	}
